@@ -321,7 +321,7 @@ def abstract_file(draw, tier="quick", max_sections=5, neg=None):
                 ver = draw(st.one_of(st.binary(min_size=0, max_size=6), st.text(st.sampled_from("0123456789.vV-"), min_size=7, max_size=8).map(str.encode)))  # >= 7 bytes: text (BGM version strings)
                 instrs.append(("CHECK_FWVER", draw(st.sampled_from(["*"])) if draw(st.integers(0, 3)) == 0 else bytes([draw(st.integers(0, 255)), draw(st.integers(0, 255)), len(ver)]) + ver))
             if draw(st.integers(0, 2)) == 0:
-                instrs.append(("CRC", draw(st.integers(0, 0xFFFFFFFF))))
+                instrs.append(("CRC", draw(st.one_of(st.integers(0, 0xFFFFFFFF), st.integers(0, 0xFFFFFF), st.sampled_from([0, 1, 0xABCDEF1, 0x345678, 0x1234, 0x0FFFFFFF])))))
             reboot = draw(st.booleans())
             has_check = any(i[0] == "CHECK_FWVER" for i in instrs)
             pre_allowed = (not pending) or (prev_had_check and has_check)
